@@ -1,8 +1,10 @@
 CONSTANTS
   StopMode = "none"
   Lys = {}
+  MaxSteps = @MAXSTEPS@
 INIT DocInit
 NEXT Next
 INVARIANTS NoStuck HeapWF AnyConcrete
 CONSTRAINT Emit
+CONSTRAINT WithinSteps
 CHECK_DEADLOCK FALSE
